@@ -150,7 +150,16 @@ ConvergenceOnly(pl, res1, a) ==
   pl.kind = "ss" /\ AllPositive(pl.res) /\ AllPositive(res1)
   /\ LET extra == BAdd(BNat(3), BAdd(BDiv(BNat(2000000), P!Pow10(MaxDec(pl) - pl.dec[a])), One))
      IN InvariantOK(pl, [res1 EXCEPT ![a] = BAdd(@, extra)])
-F7(pl, res1, a) == IF RoundingOnly(pl, res1, a) THEN "F7" ELSE IF MaxDec(pl) >= 12 /\ ConvergenceOnly(pl, res1, a) THEN "F11" ELSE ""
+(* recorded finding F13: far outside the supported range (normalised reserves skewed by more than 10^5 : 1) the invariant D
+   loses precision on both paths and the operations are not refused. Trigger: that skew; residual: the invariant moves by
+   less than 10^-8 of itself (swap path) / the D used to mint is within 10^-8 relative of the exact root (mint path). *)
+Skewed(pl, res) ==
+  LET xs == Norm(pl, res, One) IN \E i, j \in DOMAIN xs : BLt(BMul(xs[j], BNat(100000)), xs[i])
+WithinRelSwap(pl, res1) ==
+  pl.kind = "ss" /\ AllPositive(pl.res) /\ AllPositive(res1)
+  /\ LET d0 == P!RootFloor(Ann(pl), Norm(pl, pl.res, K6)) IN P!DBelowRoot(Ann(pl), Norm(pl, res1, K6), BSub(d0, BDiv(d0, BNat(100000000))))
+F7(pl, res1, a) == IF RoundingOnly(pl, res1, a) THEN "F7" ELSE IF MaxDec(pl) >= 12 /\ ConvergenceOnly(pl, res1, a) THEN "F11"
+                   ELSE IF Skewed(pl, pl.res) /\ WithinRelSwap(pl, res1) THEN "F13" ELSE ""
 (* C19: the gross output against the exact solution of the invariant, tolerance = 2 output units plus the
    value of 2 offered units (taken at the larger of the 1:1 peg and the average rate of this trade) *)
 QuoteTolScaled(pl, o, a, dx, gross) ==
@@ -328,7 +337,8 @@ FirstDWithin(pl, res1, S1, slack) ==     \* the integer D used to mint at the fi
 FirstDNearExact(pl, res1, S1) == FirstDWithin(pl, res1, S1, Two)
 (* recorded finding F12: the integer Newton iteration of the mint path accumulates truncation error on skewed
    3-4 asset pools; residual: within 2 units + 10^-15 relative of the exact root *)
-F12(pl, res1, S1) == IF FirstDWithin(pl, res1, S1, BAdd(Two, BDiv(S1, BMul(E9, BNat(1000000))))) THEN "F12" ELSE ""
+F12(pl, res1, S1) == IF FirstDWithin(pl, res1, S1, BAdd(Two, BDiv(S1, BMul(E9, BNat(1000000))))) THEN "F12"
+                     ELSE IF Skewed(pl, res1) /\ FirstDWithin(pl, res1, S1, BAdd(Two, BDiv(S1, BNat(100000000)))) THEN "F13" ELSE ""
 DepositRatioWithin(d, R, t) == P!DepositRatioWithin(d, R, t)
 Proportional(d, R) == P!Proportional(d, R)
 
@@ -468,6 +478,8 @@ JudgeCreatePool(s, e, p) ==
        C16_fee_forwarded_nothing_kept |-> G(e.ok, MoneyMoves(s, p, T) /\ \A d \in DOMAIN s.bal["pm"] : p.bal["pm"][d] = s.bal["pm"][d]),
        C16_one_new_pool        |-> G(e.ok, Cardinality(new) = 1 /\ DOMAIN Pools(s) \subseteq DOMAIN Pools(p)),
        C16_identifier          |-> G(good /\ e.id # "none", nid = expectedId),
+       \* well-formed: letters, digits, '/' and '.', and short enough for the LP subdenom "o.<id>.LP" to fit 44 characters
+       C16_identifier_wellformed |-> G(e.ok /\ e.id # "none", e.id_chars_ok /\ e.id_len + 5 <= 44),
        C16_new_pool_recorded   |-> G(good, LET np == Pools(p)[nid] IN
                                            /\ np.kind = e.kind /\ np.amp = e.amp /\ np.denoms = e.denoms /\ np.adenoms = e.denoms /\ np.dec = e.dec
                                            /\ np.fee = e.fee /\ np.supply = Z /\ \A i \in DOMAIN np.res : np.res[i] = Z
